@@ -366,12 +366,47 @@ def run(ctx: Ctx):
                 constructs=lambda c: "_handle_connections" in c)
     ctx.include(_c14_run, {"C14-R2", "C14-R3"}, "C19-G4c",
                 "thread slots are returned; workers are started once and stopped by their owner", floor=8)
+    # a dialled socket is closed when the dial fails before the socket is registered
+    ctx.rule("C19-G4h", "_connect_to_peer: an exception between creating the socket and registering it "
+                        "with the connection closes the socket", floor=1)
+    from ..effects import fault_effects_of as _fe
+    ctp = nc.methods.get("_connect_to_peer") if "nc" in dir() else model.cls("node.node", "Node").methods.get("_connect_to_peer")
+    if ctp is None:
+        ctx.error("Node._connect_to_peer not found", rule="C19-G4h")
+    else:
+        ctx.use(ctp)
+        gc_ = cfg_of(ctp, effects=_fe(model))
+        sdefs = [n for n in gc_.nodes if n.kind == "stmt" and isinstance(n.ast, ast.Assign)
+                 and isinstance(n.ast.value, ast.Call)
+                 and A.call_name(n.ast.value) in ("socket.socket", "sctp.sctpsocket_tcp", "sctp.sctpsocket")]
+        for sd in sdefs:
+            sv = A.dotted(sd.ast.targets[0])
+            cons = f"_connect_to_peer:{A.call_name(sd.ast.value)}#closed-on-failure"
+            ctx.inst(cons, rule="C19-G4h")
+            settle = [n for n in gc_.nodes if any(
+                (A.call_name(c) == f"{sv}.close") or
+                (A.call_name(c) == "self._add_peer_connection" and any(A.dotted(a) == sv for a in c.args))
+                for c in n.calls())]
+            r = gc_.reach([d for l, d in sd.succ if l not in ("exc", "raise")], blocked=settle)
+            # a settle node in a handler still lets the exception travel on: only count the
+            # escape when no settle node lies on the path
+            if gc_.raise_exit in r:
+                esc = [n for n in r if n.raises and any(d is gc_.raise_exit for l, d in n.succ if l in ("exc", "raise"))]
+                ctx.fail(cons, gc_.loc(esc[0] if esc else sd),
+                         f"`{(esc[0] if esc else sd).text(70)}` can raise "
+                         f"({sorted((esc[0].raises if esc else []) or [])}) after `{sv}` has been created and "
+                         f"before it is registered with a connection: the exception leaves "
+                         f"_connect_to_peer with the socket open and nothing referring to it (one "
+                         f"descriptor per failed dial)", rule="C19-G4h",
+                         expected=f"try: ... except: {sv}.close(); raise")
     from .common_node import connect_failure_closes, route_lists_not_aliased
     connect_failure_closes(ctx, "C19-G4e")
     route_lists_not_aliased(ctx, "C19-G6")
     # writer, readers and purge of the flat transaction tables agree on the key
     from .common_node import transaction_table_keys
     transaction_table_keys(ctx, "C19-G7")
+    from .common_node import routed_record_rechecked
+    routed_record_rechecked(ctx, "C19-G8")
     ctx.include(_c06_run, {"C06-R3"}, "C19-G4d",
                 "a connection refused by receive_cer is left in a state that the I/O loop or the "
                 "timers tear down (CLOSING, or CONNECTED until the CER time-out): stored in any "
